@@ -658,6 +658,7 @@ def _inline_procedures(tree: ast.Module) -> None:
                 any(b.endswith("Step") or b.endswith("Handler") for b in bases)
                 or (fn.name == "start" and any(b.endswith("Optimizer") for b in bases))
                 or cls.name == "Plan"
+                or cls.name.endswith("Manager")
             )
             if not entry:
                 continue
